@@ -39,11 +39,54 @@ ASSUMES = ["POSIX rename is atomic", "other participants are joblib processes (t
 OUTSIDE = ["more than 2 interference actions per run", "non-joblib writers in the cache directory"]
 
 SRC = "def f(a, b=2):\n    # caf\u00e9\n    return ('val', a, b)\n\ndef h(a):\n    return ('h', a)\n"
-WORKLOADS = ["cold", "warm", "shelve", "reduce", "clear", "other_func", "code_change"]
+WORKLOADS = ["cold", "warm", "shelve", "reduce", "clear", "other_func", "code_change", "twice", "mmap"]
 ACTIONS = ["rm_output", "rm_meta", "rm_code", "rm_entry", "wipe_func", "clear_all", "store_same", "dir_only",
-           "output_only", "torn_code_13", "torn_code_half", "empty_code", "same_mkdir", "torn_code_mb"]
+           "output_only", "torn_code_13", "torn_code_half", "empty_code", "same_mkdir", "torn_code_mb", "thread_clear"]
 
 _PLAN = {}
+_CUR = {"fs": None}
+
+
+def _emit(kind):
+    fs = _CUR["fs"]
+    if fs is not None and fs.hook is not None:
+        fs.hook(fs, kind, ("_FUNCTION_HASHES",))
+
+
+import weakref       # noqa: E402
+
+
+class _Table(weakref.WeakKeyDictionary):
+    """joblib.memory._FUNCTION_HASHES with an interference point before every read: another *thread of the same
+    process* shares this table (and Memory.clear() empties it)."""
+
+    def __contains__(self, k):
+        _emit("mem:contains")
+        return weakref.WeakKeyDictionary.__contains__(self, k)
+
+    def __getitem__(self, k):
+        _emit("mem:getitem")
+        return weakref.WeakKeyDictionary.__getitem__(self, k)
+
+    def get(self, k, default=None):
+        _emit("mem:get")
+        return weakref.WeakKeyDictionary.get(self, k, default)
+
+
+import contextlib    # noqa: E402
+
+
+@contextlib.contextmanager
+def _shared_tables(fs):
+    import joblib.memory as jm
+    saved = jm._FUNCTION_HASHES
+    jm._FUNCTION_HASHES = _Table()
+    _CUR["fs"] = fs
+    try:
+        yield
+    finally:
+        jm._FUNCTION_HASHES = saved
+        _CUR["fs"] = None
 
 
 def _pre_state(name):
@@ -68,12 +111,18 @@ def _participant(name, fs, clock):
     memlib.fresh_process()
     src = SRC if name != "code_change" else SRC.replace("'val'", "'val2'")
     ns = memlib.define(fs, "c11mod", src)
-    mem = memlib.new_memory()
+    mem = memlib.new_memory(mmap_mode="r") if name == "mmap" else memlib.new_memory()
     tag = "val2" if name == "code_change" else "val"
-    if name in ("cold", "warm", "code_change"):
+    if name in ("cold", "warm", "code_change", "mmap"):      # mmap: the fresh result is read back right after the store
         v = mem.cache(ns["f"])(1)
         if v != (tag, 1, 2):
             probs.append("call returned %r" % (v,))
+    elif name == "twice":
+        g = mem.cache(ns["f"])
+        for _ in range(2):                  # the second call goes through the in-memory shortcut
+            v = g(1)
+            if v != (tag, 1, 2):
+                probs.append("call returned %r" % (v,))
     elif name == "shelve":
         ref = mem.cache(ns["f"]).call_and_shelve(1)
         try:
@@ -103,7 +152,7 @@ def prepare(params):
     events = []
     fs.hook = lambda f, kind, args: events.append((kind,) + tuple(args[:1]))
     start_trace = len(fs.trace)
-    with memlib.env(fs, clock):
+    with memlib.env(fs, clock), _shared_tables(fs):
         _participant(wl, fs, clock)
     fs.hook = None
     # complete files another process would rename in (the value the same function computes)
@@ -122,6 +171,13 @@ def prepare(params):
 
 def _interfere(fs, action, event=None):
     """One step of 'another joblib process' on the shared directory (no events, no hook)."""
+    if action == "thread_clear":
+        # Memory.clear() by another thread of the same process: the directory and the shared in-memory tables
+        import joblib.memory as jm
+        _interfere(fs, "clear_all", event)
+        weakref.WeakKeyDictionary.clear(jm._FUNCTION_HASHES)
+        jm._FUNCTION_ID_HASHES.clear()
+        return
     if action == "same_mkdir":
         # another process creates the very directory the participant is about to create (or test for)
         if event is not None and event[0] in ("mkdir", "stat") and event[1].startswith(memlib.CACHE + "/joblib/") \
@@ -194,7 +250,7 @@ def _run_with_interference(wl, plan):
         while todo and todo[0][0] == i:
             _interfere(f, todo.pop(0)[1], (kind,) + tuple(args[:1]))
     fs.hook = hook
-    with memlib.env(fs, clock):
+    with memlib.env(fs, clock), _shared_tables(fs):
         try:
             with H.Watchdog(90):
                 probs = _participant(wl, fs, clock)
@@ -207,7 +263,7 @@ def _run_with_interference(wl, plan):
 def ob_rely(e: int, act: int, e2: int, act2: int) -> bool:
     """
     pre: 0 <= e <= 400 and -1 <= e2 <= 400
-    pre: 0 <= act <= 13 and 0 <= act2 <= 13
+    pre: 0 <= act <= 14 and 0 <= act2 <= 14
     post: _
     """
     H.enter()
@@ -223,7 +279,7 @@ def ob_rely(e: int, act: int, e2: int, act2: int) -> bool:
         H.assume(e2 == -1 or act2 == act)         # the second interference repeats the first action
     ee = H.select_bisect(e, 0, n - 1)
     e2v = H.select_bisect(e2, -1, n - 1)
-    a2 = H.select(act2, 0, 13)
+    a2 = H.select(act2, 0, 14)
     with H.native():
         plan = [(ee, ACTIONS[H.P("action")])] + ([(e2v, ACTIONS[a2])] if e2v >= 0 else [])
         probs = _run_with_interference(H.P("workload"), plan)
